@@ -106,12 +106,12 @@ chk("C03",
     "deserialize(serialize(x)) = x whenever the fields have the configured widths, any other total length is refused, a successful parse returns "
     "exactly what was sent cut at the configured widths; generated keys of all nine schemes and the tokens of all seven schemes with a concatenation format - PiBas/PiPack (as used by a successful search), PiPtr/Pi2Lev (prf_f_output_length = param_lambda), SSE1 (every accepted configuration: label of param_l bytes from the bit PRP, mask of param_k + ceil(log2 s / 8) bytes), CT14 and ANSS16 - provably have those widths "
     "(every accepted configuration, via the HMAC P_hash length theorem of C16 and the split-length theorem of C17; ANSS16.key_roundtrip pins the width repaired by 0c28862). Search in the models is a function of the "
-    "deserialized objects only, so equal objects give equal results. Tie: the scheme correspondence (all nine schemes) + the direct oracle on "
+    "deserialized objects only, so equal objects give equal results. Tie: (a) a TRANSLATOR - harness/translate/wire_layout.py regenerates Generated/WireLayout.lean from schemes/*/*/structures.py on every run (per key / token class the length deserialize insists on and the widths it cuts at, as Lean functions of the configuration fields; which objects are pickled) and the nine S.wire_is_source theorems prove for EVERY configuration that these are the widths of the wire model, that the checked length is the sum of the cut widths and that serialize joins as many fields as deserialize cuts; (b) the scheme correspondence (all nine schemes) + the direct oracle on "
     "the real code: a FRESH scheme instance from the JSON round trip of the configuration, key / index / token / result deserialized from "
     "bytes, every stored and adversarially close absent keyword searched through the split and compared with DB.get(w), then a second session "
-    "with a fresh key in the same process.",
-    SCHEME_TRUST + " pickle and json are library codecs (loads(dumps(x)) == x assumed, exercised by the direct oracle).",
-    "Lean 4 proof (wire formats) + recorded-oracle correspondence + direct oracle through the serialized split on all nine schemes",
+    "with a fresh key in the same process; one case per scheme (four in the thorough tier) also across REAL process boundaries: setup, token generation and the server's search in three interpreters with different hash seeds, files of bytes in between.",
+    SCHEME_TRUST + " The wire-layout translator recognises four cut idioms and fails (tie broken, failing-input search) on anything else. pickle and json are library codecs (loads(dumps(x)) == x assumed, exercised by the direct oracle).",
+    "Lean 4 proof (wire formats; layouts regenerated from structures.py by a translator and proved equal to the wire model) + recorded-oracle correspondence + direct oracle through the serialized split on all nine schemes, incl. across process boundaries",
     "6/C03")
 chk("C04",
     "Props/C04.lean: every ciphertext of the encryption wrapper starts with the 16 random bytes drawn for it, so different draws give different "
